@@ -30,10 +30,14 @@
    Not modelled: OneOfLocation keeps its alternatives in a dict keyed by $anchor / title / 'UNNAMED';
    two alternatives with the same key collapse into one.  Alternatives emitted by cobol_parser carry
    distinct names; the js tree of Model/Layout.v has no titles.  The ODO counter is read with the total
-   [dcount] exactly as in Model/Layout.v (a counter holding undecodable bytes makes from_instance raise). *)
+   [dcount] exactly as in Model/Layout.v (a counter holding undecodable bytes makes from_instance raise).
+
+   walkv, vnav_of, vnav_name, vnav_index, index_start_z and vnav_raw evaluate the same rules as Model/Layout.v, read
+   from the current source into Gen/LayoutParams.v by harness/t1_layout.py; Proofs/LayoutValueP.v starts with what
+   they amount to under the rules as they are now. *)
 From Coq Require Import List Arith NArith ZArith Bool.
 Import ListNotations.
-Require Import SR.Base.Res SR.Spec.Layout SR.Model.Layout.
+Require Import SR.Base.Res SR.Spec.Layout SR.Model.LayoutRule SR.Gen.LayoutParams SR.Model.Layout.
 Open Scope nat_scope.
 
 (* ------------------------------------------------------------------ Python values *)
@@ -86,7 +90,7 @@ with erase_alts (ls : walts) : lalts :=
 Definition wstart (l : wloc) : nat :=
   match l with WAtom _ s _ | WArr s _ _ _ _ _ | WObj s _ _ | WOne s _ _ | WRef s _ => s end.
 Definition wsize (l : wloc) : nat :=
-  match l with WAtom _ _ z | WArr _ z _ _ _ _ | WObj _ z _ | WOne _ z _ => z | WRef _ _ => 0 end.
+  match l with WAtom _ _ z | WArr _ z _ _ _ _ | WObj _ z _ | WOne _ z _ => z | WRef s _ => ref_size s end.
 Definition wend (l : wloc) : nat := wstart l + wsize l.
 
 Definition wanchors := list (key * wloc).
@@ -99,8 +103,46 @@ Fixpoint wlookup (k : key) (an : wanchors) : option wloc :=
   end.
 Definition erase_an (an : wanchors) : anchors := map (fun p => (fst p, erase (snd p))) an.
 
+Definition wpost_reg (a : option key) (l : wloc) (an : wanchors) : wanchors :=
+  if walk_registers_anchor then wreg a l an else an.
+Definition wloop_reg (a : option key) (l : wloc) (an : wanchors) : wanchors :=
+  if obj_loop_registers_anchor then wreg a l an else an.
+
+(* the aggregates of Model/Layout.v, over these locations *)
 Fixpoint wmax_size (ls : walts) : nat :=
   match ls with WANil => 0 | WACons l r => Nat.max (wsize l) (wmax_size r) end.
+Fixpoint wsum_size (ls : walts) : nat :=
+  match ls with WANil => 0 | WACons l r => wsize l + wsum_size r end.
+Fixpoint wmin_size (ls : walts) : nat :=
+  match ls with WANil => 0 | WACons l WANil => wsize l | WACons l r => Nat.min (wsize l) (wmin_size r) end.
+Definition wfirst_size (ls : walts) : nat := match ls with WANil => 0 | WACons l _ => wsize l end.
+Fixpoint wlast_size (ls : walts) : nat :=
+  match ls with WANil => 0 | WACons l WANil => wsize l | WACons _ r => wlast_size r end.
+Definition wagg_alts (g : agg) (ls : walts) : nat :=
+  match g with
+  | AggSum => wsum_size ls | AggMax => wmax_size ls | AggMin => wmin_size ls
+  | AggFirst => wfirst_size ls | AggLast => wlast_size ls
+  end.
+Fixpoint wsum_props (ps : wprops) : nat :=
+  match ps with WPNil => 0 | WPCons _ l r => wsize l + wsum_props r end.
+Fixpoint wmax_props (ps : wprops) : nat :=
+  match ps with WPNil => 0 | WPCons _ l r => Nat.max (wsize l) (wmax_props r) end.
+Fixpoint wmin_props (ps : wprops) : nat :=
+  match ps with WPNil => 0 | WPCons _ l WPNil => wsize l | WPCons _ l r => Nat.min (wsize l) (wmin_props r) end.
+Definition wfirst_props (ps : wprops) : nat := match ps with WPNil => 0 | WPCons _ l _ => wsize l end.
+Fixpoint wlast_props (ps : wprops) : nat :=
+  match ps with WPNil => 0 | WPCons _ l WPNil => wsize l | WPCons _ _ r => wlast_props r end.
+Definition wagg_props (g : agg) (ps : wprops) : nat :=
+  match g with
+  | AggSum => wsum_props ps | AggMax => wmax_props ps | AggMin => wmin_props ps
+  | AggFirst => wfirst_props ps | AggLast => wlast_props ps
+  end.
+Definition wobj_size (s e : nat) (ps : wprops) : nat :=
+  match obj_size_override with Some g => wagg_props g ps | None => loc_size s e end.
+
+Definition warr_loc (es ee eisz ecnt : lexpr) (st : nat) (sub : wloc) (cnt : nat) (its : js) : wloc :=
+  let v := env_arr st (wsize sub) cnt in
+  WArr (loc_start (eval v es) (eval v ee)) (loc_size (eval v es) (eval v ee)) (eval v eisz) (eval v ecnt) sub its.
 
 Fixpoint wfind (k : key) (ps : wprops) : option wloc :=
   match ps with
@@ -139,52 +181,110 @@ Section Walk.
   Variable dcount : list B -> nat.      (* int(unpacker.value(counter schema, bytes)) *)
   Variable r : list B.                  (* the record instance *)
 
-  (* ---------------------------------------------------------------- LocationMaker.walk *)
-  Fixpoint walkv (s : js) (st : nat) (an : wanchors) : res (wloc * wanchors) :=
-    match s with
-    | JAtom a sz => let l := WAtom a st sz in Ok (l, wreg a l an)
-    | JArr a n its =>
-        match walkv its st an with
-        | Err e => Err e
-        | Ok (sub, an1) =>
-            let l := WArr st (wsize sub * n) (wsize sub) n sub its in Ok (l, wreg a l an1)
-        end
-    | JOdo a c its =>
+  (* ---------------------------------------------------------------- LocationMaker.walk
+     the walk of Model/Layout.v (same rules, read from Gen/LayoutParams.v), keeping the atom's anchor *)
+  Definition wodo_count (c : id) (an : wanchors) : res nat :=
+    match odo_count_src with
+    | CsAnchorValue =>
         match wlookup (KName c) an with
         | None => Err KeyError
-        | Some (WAtom _ cst csz) =>
-            let n := dcount (slice r cst (cst + csz)) in
-            match walkv its st an with
-            | Err e => Err e
-            | Ok (sub, an1) =>
-                let l := WArr st (wsize sub * n) (wsize sub) n sub its in Ok (l, wreg a l an1)
-            end
+        | Some (WAtom _ cst csz) => Ok (dcount (slice r cst (cst + csz)))
         | Some _ => Err TypeError
         end
+    | CsAttrMaxItems => Ok 0
+    end.
+
+  Fixpoint walkv (s : js) (st : nat) (an : wanchors) : res (wloc * wanchors) :=
+    match s with
+    | JAtom a sz =>
+        match dispatch CAtomic with
+        | Some CAtomic =>
+            let v := env_atom st sz in
+            let l := WAtom a (loc_start (eval v atom_start) (eval v atom_end)) (loc_size (eval v atom_start) (eval v atom_end)) in
+            Ok (l, wpost_reg a l an)
+        | _ => Err DesignError
+        end
+    | JArr a n its =>
+        match dispatch CArray with
+        | Some CArray =>
+            match arr_count n with
+            | Err e => Err e
+            | Ok cnt =>
+                match walkv its (eval (env_arr st 0 cnt) arr_item_start) an with
+                | Err e => Err e
+                | Ok (sub, an1) =>
+                    let l := warr_loc arr_start arr_end arr_item_size arr_item_count st sub cnt its in Ok (l, wpost_reg a l an1)
+                end
+            end
+        | _ => Err DesignError
+        end
+    | JOdo a c its =>
+        match dispatch CDependsOn with
+        | Some CDependsOn =>
+            match wodo_count c an with
+            | Err e => Err e
+            | Ok cnt =>
+                match walkv its (eval (env_arr st 0 cnt) odo_item_start) an with
+                | Err e => Err e
+                | Ok (sub, an1) =>
+                    let l := warr_loc odo_start odo_end odo_item_size odo_item_count st sub cnt its in Ok (l, wpost_reg a l an1)
+                end
+            end
+        | Some CArray =>
+            match odo_as_arr_count with
+            | Err e => Err e
+            | Ok cnt =>
+                match walkv its (eval (env_arr st 0 cnt) arr_item_start) an with
+                | Err e => Err e
+                | Ok (sub, an1) =>
+                    let l := warr_loc arr_start arr_end arr_item_size arr_item_count st sub cnt its in Ok (l, wpost_reg a l an1)
+                end
+            end
+        | _ => Err DesignError
+        end
     | JObj a ps =>
-        match walkv_props ps st an with
-        | Err e => Err e
-        | Ok (pls, off, an1) => let l := WObj st (off - st) pls in Ok (l, wreg a l an1)
+        match dispatch CObject with
+        | Some CObject =>
+            match walkv_props ps (eval (env_start st) obj_first_offset) an with
+            | Err e => Err e
+            | Ok (pls, off, an1) =>
+                let v := env_obj st off in
+                let l := WObj (loc_start (eval v obj_start) (eval v obj_end)) (wobj_size (eval v obj_start) (eval v obj_end) pls) pls in
+                Ok (l, wpost_reg a l an1)
+            end
+        | _ => Err DesignError
         end
     | JOne a alts =>
-        match alts with
-        | ANil => Err ValueError                     (* max() of an empty sequence *)
-        | _ =>
-            match walkv_alts alts st an with
-            | Err e => Err e
-            | Ok (als, an1) => let l := WOne st (wmax_size als) als in Ok (l, wreg a l an1)
+        match dispatch COneOf with
+        | Some COneOf =>
+            match alts, agg_empty one_agg with
+            | ANil, Err e => Err e                   (* max() of an empty sequence *)
+            | _, _ =>
+                match walkv_alts alts (eval (env_start st) one_alt_start) an with
+                | Err e => Err e
+                | Ok (als, an1) =>
+                    let v := env_one st (wagg_alts one_agg als) in
+                    let l := WOne (loc_start (eval v one_start) (eval v one_end)) (loc_size (eval v one_start) (eval v one_end)) als in
+                    Ok (l, wpost_reg a l an1)
+                end
             end
+        | _ => Err DesignError
         end
-    | JRef k => Ok (WRef st k, an)
+    | JRef k =>
+        match dispatch CRefTo with
+        | Some CRefTo =>
+            let v := env_start st in Ok (WRef (loc_start (eval v ref_start) (eval v ref_end)) k, an)
+        | _ => Err DesignError
+        end
     end
   with walkv_props (ps : props) (off : nat) (an : wanchors) : res (wprops * nat * wanchors) :=
     match ps with
     | PNil => Ok (WPNil, off, an)
     | PCons k p rest =>
-        match walkv p off an with
+        match walkv p (eval (env_off off) obj_child_start) an with
         | Err e => Err e
         | Ok (pl, an1) =>
-            match walkv_props rest (off + wsize pl) (wreg (js_anchor p) pl an1) with
+            match walkv_props rest (eval (env_step off (wsize pl)) obj_step) (wloop_reg (js_anchor p) pl an1) with
             | Err e => Err e
             | Ok (rl, off', an2) => Ok (WPCons k pl rl, off', an2)
             end
@@ -207,16 +307,21 @@ Section Walk.
   (* ---------------------------------------------------------------- NDNav: name, index, raw *)
   Record vnav := mkvnav { vn_loc : wloc; vn_an : wanchors }.
 
+  Definition vfrom_instance (s : js) (start : nat) : res (wloc * wanchors) :=
+    walkv s (eval (env_start start) from_instance_start) [].
+
   Definition vnav_of (s : js) : res vnav :=
-    match walkv s 0 [] with Ok (l, an) => Ok (mkvnav l an) | Err e => Err e end.
+    match vfrom_instance s from_instance_default with Ok (l, an) => Ok (mkvnav l an) | Err e => Err e end.
 
   Definition vnav_name (v : vnav) (k : key) : res vnav :=
     match vn_loc v with
     | WObj _ _ ps =>
         match wfind k ps with
         | None => Err KeyError
-        | Some (WRef _ t) =>
-            match wlookup t (vn_an v) with Some l => Ok (mkvnav l (vn_an v)) | None => Err KeyError end
+        | Some (WRef st t) =>
+            if name_via_referent
+            then match wlookup t (vn_an v) with Some l => Ok (mkvnav l (vn_an v)) | None => Err KeyError end
+            else Ok (mkvnav (WRef st t) (vn_an v))
         | Some l => Ok (mkvnav l (vn_an v))
         end
     | _ => Err TypeError
@@ -225,20 +330,22 @@ Section Walk.
   Definition vnav_index (v : vnav) (i : nat) : res vnav :=
     match vn_loc v with
     | WArr st _ isz cnt _ sch =>
-        if cnt <=? i then Err IndexError
-        else match walkv sch (st + isz * i) [] with
+        if refused index_refuse i cnt then Err IndexError
+        else match vfrom_instance sch (eval (env_index st isz cnt i) index_start) with
              | Ok (l, an) => Ok (mkvnav l an)
              | Err e => Err e
              end
     | _ => Err TypeError
     end.
 
-  (* NDNav.index as written takes any Python int: the only test is  index >= item_count.
-     The start handed to the fresh LocationMaker, as an integer. *)
+  (* NDNav.index as written takes any Python int: the only test is  index <index_refuse> item_count  (>= in the source
+     as it is).  The start handed to the fresh LocationMaker, as an integer. *)
   Definition index_start_z (v : vnav) (z : Z) : res Z :=
     match vn_loc v with
     | WArr st _ isz cnt _ _ =>
-        if (Z.of_nat cnt <=? z)%Z then Err IndexError else Ok (Z.of_nat st + Z.of_nat isz * z)%Z
+        if refusedZ index_refuse z (Z.of_nat cnt) then Err IndexError
+        else Ok (evalZ (fun x => match x with VStart => evalZ (env_indexZ st isz cnt z) index_start | _ => 0%Z end)
+                   from_instance_start)
     | _ => Err TypeError
     end.
 
@@ -252,7 +359,8 @@ Section Walk.
     end.
 
   (* NDNav.raw: instance[location.start : location.end] *)
-  Definition vnav_raw (v : vnav) : list B := slice r (wstart (vn_loc v)) (wend (vn_loc v)).
+  Definition vnav_raw (v : vnav) : list B :=
+    let ev := env_raw (wstart (vn_loc v)) (wend (vn_loc v)) in slice r (eval ev raw_lo) (eval ev raw_hi).
 
   (* ---------------------------------------------------------------- value *)
   Variable A : Type.
@@ -262,34 +370,48 @@ Section Walk.
     Variable an : wanchors.
     Variable deref : wloc -> nat -> vres (pv A).   (* value of the location a $ref resolved to *)
 
+    (* the rules (slice of an atom, offsets and count of an array's occurrences, the offset handed on, which alternative)
+       are read from the value methods of the source: Gen/LayoutParams.v *)
     Fixpoint value_body (l : wloc) (off : nat) : vres (pv A) :=
       match l with
       | WAtom a st sz =>
-          match dec a (slice r (st + off) (st + sz + off)) with
+          let ev := env_val st (st + sz) off in
+          match dec a (slice r (eval ev atomval_lo) (eval ev atomval_hi)) with
           | Ok x => Some (Ok (PAtom x))
           | Err e => Some (Err e)
           end
       | WArr st sz isz cnt it sch =>
-          match seq_values (fun i => value_body it (off + i * isz)) cnt 0 with
+          match seq_values (fun i => value_body it (eval (env_arrval off i isz cnt) arrval_offset))
+                           (eval (env_arrval off 0 isz cnt) arrval_count) 0 with
           | None => None
           | Some (Err e) => Some (Err e)
           | Some (Ok xs) => Some (Ok (PList xs))
           end
       | WObj st sz ps =>
-          match props_body ps off with
+          match props_body ps (eval (env_val st (st + sz) off) objval_offset) with
           | None => None
           | Some (Err e) => Some (Err e)
           | Some (Ok d) => Some (Ok (PDict d))
           end
       | WOne st sz alts =>
-          match alts with
-          | WANil => Some (Err ValueError)            (* first, *others = () *)
-          | WACons first _ => value_body first off
+          match oneval_pick with
+          | PickFirst =>
+              match alts with
+              | WANil => Some (Err ValueError)            (* first, *others = () *)
+              | WACons first _ => value_body first (eval (env_val st (st + sz) off) oneval_offset)
+              end
+          | PickLast =>
+              (fix last (ls : walts) : vres (pv A) :=
+                 match ls with
+                 | WANil => Some (Err ValueError)
+                 | WACons l0 WANil => value_body l0 (eval (env_val st (st + sz) off) oneval_offset)
+                 | WACons _ rest => last rest
+                 end) alts
           end
       | WRef st t =>
           match wlookup t an with
           | None => Some (Err KeyError)
-          | Some target => deref target off
+          | Some target => deref target (eval (env_val st st off) refval_offset)
           end
       end
     with props_body (ps : wprops) (off : nat) : vres (list (key * pv A)) :=
@@ -315,8 +437,8 @@ Section Walk.
     | S f => value_body an (wvalue f an)
     end.
 
-  (* NDNav.value: location.value(instance), offset 0 *)
-  Definition vnav_value (v : vnav) : vres (pv A) := wvalue (length (vn_an v)) (vn_an v) (vn_loc v) 0.
+  (* NDNav.value: location.value(instance): the offset is the methods' default *)
+  Definition vnav_value (v : vnav) : vres (pv A) := wvalue (length (vn_an v)) (vn_an v) (vn_loc v) value_default_offset.
 
   (* Row.values: [nav.name(name).value() for name in schema.properties] *)
   Fixpoint values_of (v : vnav) (ks : list key) : vres (list (pv A)) :=
@@ -353,11 +475,25 @@ Section Walk.
     Variable dfoot : wloc -> nat -> list (nat * nat).
     Fixpoint foot_body (l : wloc) (off : nat) : list (nat * nat) :=
       match l with
-      | WAtom a st sz => [(st + off, st + sz + off)]
-      | WArr st sz isz cnt it sch => flat_map (fun i => foot_body it (off + i * isz)) (seq 0 cnt)
-      | WObj st sz ps => foot_props ps off
-      | WOne st sz alts => match alts with WANil => [] | WACons first _ => foot_body first off end
-      | WRef st t => match wlookup t an with None => [] | Some target => dfoot target off end
+      | WAtom a st sz => let ev := env_val st (st + sz) off in [(eval ev atomval_lo, eval ev atomval_hi)]
+      | WArr st sz isz cnt it sch =>
+          flat_map (fun i => foot_body it (eval (env_arrval off i isz cnt) arrval_offset))
+                   (seq 0 (eval (env_arrval off 0 isz cnt) arrval_count))
+      | WObj st sz ps => foot_props ps (eval (env_val st (st + sz) off) objval_offset)
+      | WOne st sz alts =>
+          match oneval_pick with
+          | PickFirst =>
+              match alts with WANil => [] | WACons first _ => foot_body first (eval (env_val st (st + sz) off) oneval_offset) end
+          | PickLast =>
+              (fix last (ls : walts) : list (nat * nat) :=
+                 match ls with
+                 | WANil => []
+                 | WACons l0 WANil => foot_body l0 (eval (env_val st (st + sz) off) oneval_offset)
+                 | WACons _ rest => last rest
+                 end) alts
+          end
+      | WRef st t =>
+          match wlookup t an with None => [] | Some target => dfoot target (eval (env_val st st off) refval_offset) end
       end
     with foot_props (ps : wprops) (off : nat) : list (nat * nat) :=
       match ps with
@@ -372,7 +508,7 @@ Section Walk.
     | S f => foot_body an (wfoot f an)
     end.
 
-  Definition vnav_foot (v : vnav) : list (nat * nat) := wfoot (length (vn_an v)) (vn_an v) (vn_loc v) 0.
+  Definition vnav_foot (v : vnav) : list (nat * nat) := wfoot (length (vn_an v)) (vn_an v) (vn_loc v) value_default_offset.
 
   (* every slice value() reads lies inside the location's own [start, end) *)
   Definition foot_inside (v : vnav) : bool :=
@@ -382,6 +518,8 @@ End Walk.
 Arguments walkv {B}.
 Arguments walkv_props {B}.
 Arguments walkv_alts {B}.
+Arguments wodo_count {B}.
+Arguments vfrom_instance {B}.
 Arguments vnav_of {B}.
 Arguments vnav_index {B}.
 Arguments vnav_step {B}.
